@@ -78,7 +78,7 @@ def strip(b):
 
 def compare(ctx, b, o, where, modeseq):
     """compare one replayed behaviour with the spec's predictions; returns number of asks checked"""
-    case = strip(b)
+    case = {"steps": b}          # the replay artefact keeps the spec's predictions (the replayer ignores them)
     asked = 0
     devdump = {}
     for j, s in enumerate(b):
@@ -136,8 +136,38 @@ def settings_file(b):
     return root
 
 
+def finish_replay(ctx):
+    """--replay: report what was reproduced; the evidence file is not touched"""
+    import shutil
+    for (sig, what, path) in ctx.mismatches:
+        print("VIOLATION property=%s replay=%s sig=%s :: %s" % (ctx.pid, ctx.replay, sig, " | ".join(what.splitlines())[:900]))
+    if not ctx.mismatches:
+        print("REPLAY-OK property=%s replay=%s: the implementation now conforms on this artefact" % (ctx.pid, ctx.replay))
+    shutil.rmtree(ctx.tmp, ignore_errors=True)
+    return 1 if ctx.mismatches else 0
+
+
+def replay(ctx, modeseq):
+    behaviours = [json.loads(l)["steps"] for l in open(ctx.replay) if l.strip()]
+    cases = [strip(b) for b in behaviours]
+    exe, lib = ctx.build_harness("props_replay", ["props_replay.cpp"], variant="fast")
+    env = ctx.occa_env(lib)
+    env["OCCA_CONFIG"] = os.path.join(ctx.tmp, "no-such-config.json")
+    outs, crashes = run_replayer(ctx, exe, env, cases, timeout=600)
+    for c in crashes:
+        ctx.mismatch("crash:" + c["crash"], "replayer crashed at step %s: %s" % (c["step"], c.get("log", "")[-800:]))
+    for i, b in enumerate(behaviours):
+        if i in outs:
+            if not any("exp0" in s for s in b if s["a"] == "ask"):
+                raise Broken("the artefact carries no predictions (written by an older version of the check)")
+            compare(ctx, b, outs[i], "", modeseq)
+    return finish_replay(ctx)
+
+
 def run(ctx):
     modeseq = ["Serial", "OpenMP"]
+    if ctx.replay:
+        return replay(ctx, modeseq)
     # 1. model: exhaustive over the 2^13 layer combinations, invariants (composed = intended, no entry
     #    of another mode, last-writer-wins sanity of the oracle) on, coverage on; the same run emits
     #    every behaviour
